@@ -105,3 +105,33 @@ def c03(ctx):
     r = hgen(ctx, "C03", ctx.path("rand.ndjson"))
     judge(ctx, "C03", vf.cat(ctx.path("vec.ndjson"), g1, r), what="Parse / render / re-parse")
     ctx.exhaustive = True
+
+
+# =========================================================================== control files (C07, C08)
+@prop("C07", "C07Trace",
+      "TLC enumerates every document made of up to N line tokens (12 line shapes: fields, empty first line, repeated "
+      "name, space/tab continuation, ' .', ' ..', white-space-only, comment, blank, colon-less, extra colon) x LF/CRLF x "
+      "final newline, and every byte string over {A,:,space,LF,#,.,CR} up to the bound; the four read paths of the "
+      "real reader are judged against the byte-level reference reader; plus seeded model documents <= 250 bytes.")
+def c07(ctx):
+    t = ctx.tier
+    mc(ctx, "Deb822ReaderMC.tla", "Deb822ReaderMC_%s.cfg" % t, what="Next() machine refines RefRead, invariant, terminates")
+    g1 = gen(ctx, "Deb822Gen.tla", "Deb822Gen_read_tok_%s.cfg" % t, ctx.path("tok.ndjson"), what="token documents")
+    g2 = gen(ctx, "Deb822Gen.tla", "Deb822Gen_read_bytes_%s.cfg" % t, ctx.path("bytes.ndjson"), what="byte strings")
+    r = hgen(ctx, "C07", ctx.path("rand.ndjson"))
+    judge(ctx, "C07", vf.cat(ctx.path("vec.ndjson"), g1, g2, r), what="four read paths vs RefRead")
+    ctx.exhaustive = True
+
+
+@prop("C08", "C07Trace",
+      "TLC enumerates paragraphs whose values are line sequences over {'', 'a', ' b'} (<=3 lines, trailing newline or "
+      "not, 1-2 fields, 1-3 paragraphs) and all token documents / short byte strings as reader input; written bytes "
+      "are judged by the reference reader, re-read by the real reader, and cycled three times.")
+def c08(ctx):
+    t = ctx.tier
+    g1 = gen(ctx, "Deb822Gen.tla", "Deb822Gen_paras.cfg", ctx.path("paras.ndjson"), what="paragraph models")
+    g2 = gen(ctx, "Deb822Gen.tla", "Deb822Gen_rw_tok_%s.cfg" % t, ctx.path("tok.ndjson"), what="token documents")
+    g3 = gen(ctx, "Deb822Gen.tla", "Deb822Gen_rw_bytes_%s.cfg" % t, ctx.path("bytes.ndjson"), what="byte strings")
+    r = hgen(ctx, "C08", ctx.path("rand.ndjson"))
+    judge(ctx, "C08", vf.cat(ctx.path("vec.ndjson"), g1, g2, g3, r), what="write/read laws")
+    ctx.exhaustive = True
